@@ -60,6 +60,10 @@ func RunHistoriesX(r *ev.Run, nh int, o gen.Opts, so StepOpts, minOps, maxOps in
 	}
 }
 
+// NonTrivial, when set by a check, replaces the default rule for what counts as a
+// non-trivial history.
+var NonTrivial func(s *SUT) bool
+
 // Verbose makes violations carry the tail of the node's captured log.
 var Verbose = false
 
@@ -133,7 +137,11 @@ func runOne(r *ev.Run, h int, rng *rand.Rand, o gen.Opts, so StepOpts, minOps, m
 	for _, k := range []string{"attempt", "family", "failplay", "failwalk", "failconfirm", "faildotx", "fault", "crash"} {
 		injected += s.Stats["op."+k]
 	}
-	r.Case(shape, s.Stats["walk.undo"] > 0 && (inj == nil || injected > 0))
+	nt := s.Stats["walk.undo"] > 0 && (inj == nil || injected > 0)
+	if NonTrivial != nil {
+		nt = NonTrivial(s)
+	}
+	r.Case(shape, nt)
 	for k, v := range s.Stats {
 		r.Count(k, v)
 	}
